@@ -116,7 +116,8 @@ def canonicalize_license_expression(
     after_license = False
     for original_token, token in zip(original_tokens, tokens):
         if normalized_tokens and normalized_tokens[-1] == "WITH":
-            if token not in EXCEPTIONS:
+            # (str.lower() maps U+212A KELVIN SIGN to "k": identifiers are ASCII.)
+            if token not in EXCEPTIONS or not original_token.isascii():
                 message = f"Unknown license exception: {token!r}"
                 raise InvalidLicenseExpression(message)
 
@@ -146,7 +147,7 @@ def canonicalize_license_expression(
                     licenseref_prefix + ref[len(licenseref_prefix) :] + suffix
                 )
             else:
-                if final_token not in LICENSES:
+                if final_token not in LICENSES or not original_token.isascii():
                     message = f"Unknown license: {final_token!r}"
                     raise InvalidLicenseExpression(message)
                 normalized_tokens.append(LICENSES[final_token]["id"] + suffix)
